@@ -9,6 +9,18 @@ CHECKS = {
          "Every workload of up to N packets (gaps incl. same-step/same-instant/coinciding with transmission ends) over 6 schedulers x tables x rates x flow-to-class maps is executed on the real code; departure instants, per-flow order, counters after every kernel step and Monitor samples are compared with an exact reference. Complete within the stated bounds, nothing sampled.",
          "bounds: N<=3/4 packets full menu, N<=4/5 reduced; dyadic rates/sizes so float arithmetic is exact; reference model in harness/sched.py is trusted",
          "DESIGN.md 3 C12"),
+ "C09": ("exhaustive enumeration of arrival workloads x (rate, qlimit, mode) against the real Port/PortMonitor/REDPort; exact FIFO-with-occupancy reference; RED decided as a function of harness-owned draws",
+         "Every workload of up to N packets for every rate in {0,8,16} and qlimit in None/bytes/packets is executed on the real Port: each drop decision, departure instant, byte_size after every kernel step, per-hop stamp and PortMonitor sample is compared with the reference. REDPort: the EWMA and the three-region decision are checked for four draws around the curve value at every arrival. Complete within the bounds.",
+         "bounds: N<=4/5; sizes {1,2,3}; RED thresholds (1,2),(1,3), qlimit {3,4}, weight {0,1}, max_p {.5,1}; same-instant 'waiting vs in transmission' is forked (see assumptions in evidence)",
+         "DESIGN.md 3 C09"),
+ "C10": ("exhaustive enumeration of arrival x delay-draw x loss-draw sequences against the real Wire/Cable with harness-owned delay_dist and random.uniform",
+         "Every arrival sequence of up to N packets, every delay sequence over {0,1,2,3} and every loss-draw vector is executed on the real Wire (and both directions of a Cable in every interleaving); delivery instants must equal max(entry+delay, previous delivery) under some attribution of draws to packets, lost <=> draw < rate. Complete within the bounds.",
+         "bounds: N<=5/6 lossless, 4/5 with loss draws; Cable N<=4/5 and 3/4; delays {0,1,2,3}; loss rates {None,0,0.5,1}",
+         "DESIGN.md 3 C10"),
+ "C11": ("exhaustive enumeration of arrival workloads x bucket parameters against the real TokenBucket/TwoRateTokenBucket; exact rational reference bucket",
+         "Every workload of up to N packets (sizes incl. one larger than every bucket, gaps incl. a refill-to-cap idle) for 19 TokenBucket and 7 TwoRate parameterisations is executed on the real shapers; each release instant must equal the exact reference, conformance and peak spacing are evaluated on all departure pairs, colours are checked against a bracketed committed-bucket level.",
+         "bounds: N<=4/5; rates 8/16; buckets {1,2,3}; peak {None,16,32}; CIR 8, CBS {2,3}, PIR {None,16}, PBS {2,4}",
+         "DESIGN.md 3 C11"),
  "C13": ("exhaustive enumeration of arrival workloads against the real SP scheduler; strictness checked at every service start with the D/M visibility rule",
          "Every workload of up to N packets over every priority table (2-3 flows, ties, all orderings) is executed on the real SP; at each reconstructed service start the served packet's priority is compared with every packet definitely waiting. Complete within the bounds.",
          "bounds: N<=4/5 (2 flows), N<=3/4 full and 5/6 burst menus (3 flows); positive integer priorities; D/M rule (DESIGN 2.4) decides which same-instant arrivals count as waiting",
